@@ -32,15 +32,18 @@ META = {
                   "quoted in the drivers); asyncio itself; z3/cvc5; symx semantics incl. the struct-format "
                   "interpreter (each path re-run concretely with the real struct). Not asserted: the alignment "
                   "of 8/16-bit frames in SCI RS232 transmit packets (transcriber unsure; either alignment is "
-                  "accepted) and the LUBA priority value (only its field and range).",
+                  "accepted). LUBA priority: the policy the driver documents (2 for DAPC and addressed instructions "
+                  "that are neither queries nor sent twice, 5 otherwise) is asserted per IEC table row.",
     "explanation": "symbolic execution of the drivers' construct/_cmd/_send_raw/send_dali_command/send/extract/"
                    "unpack_response code with symbolic frame and packet bytes",
     "bounds": ["frame bits fully symbolic (2^16 / 2^24), flags enumerated", "unsupported widths 1..64 symbolic",
                "sequence numbers: arbitrary state, two consecutive calls",
-               "receive side: status/type bytes and values symbolic"],
+               "receive side: status/type bytes and values symbolic",
+               "LUBA priority: every 16-bit row of the IEC tables (quick: part 102; thorough: all parts) with "
+               "symbolic address and parameter, the command object decoded by the real from_frame"],
     "stubs": ["fake os / transport / socket (harness environment)", "struct format interpreter in symbolic mode",
               "empty stand-ins for the uninstalled usb / hid / pymodbus.client.sync packages"],
-    "outside": ["SCI transmit alignment of 8/16-bit frames, LUBA priority choice (not asserted)",
+    "outside": ["SCI transmit alignment of 8/16-bit frames (not asserted)",
                 "the ATX hat's retry loop in send()", "USB/Modbus back ends"],
     "assumptions": [],
 }
@@ -230,6 +233,61 @@ def h_luba_tx(ctx, bits, twice):
         else:
             ctx.fail("packet length %d" % len(pkt), key="luba/tx-len")
     return "ok"
+
+
+def h_luba_prio(ctx, idx):
+    """Priority bits of the LUBA mode byte for a real command object of every 16-bit table row."""
+    from spec import iec_tables as T
+    part, name, kind, code, param, twice, answer, devtype = T.ROWS[idx]
+    if kind in ("dapc", "std"):
+        ak = ctx.fresh_choice("ak", 4)
+        a7 = [lambda: ctx.fresh("a", 0, 63), lambda: 0x40 | ctx.fresh("a", 0, 15), lambda: 0x7F, lambda: 0x7E][ak]()
+        p = ctx.fresh("p", 0, 255) if kind == "dapc" else (ctx.fresh("p", 0, 15) if param == "n4" else None)
+        x = T.encode16(kind, code, a7, p)
+    else:
+        if param == "byte":
+            p = ctx.fresh("p", 0, 255)
+        elif param == "short":
+            p = 0xFF if ctx.fresh_bool("mask") else (ctx.fresh("a", 0, 63) << 1) | 1
+        elif param == "init":
+            p = T.init_byte([("all",), ("unaddressed",), ("short", 5)][ctx.fresh_choice("ib", 3)])
+        else:
+            p = None
+        x = T.encode16(kind, code, None, p)
+    st, cmd = call(C.from_frame, F.ForwardFrame(16, x), devicetype=devtype)
+    tag = "luba-prio/%d/%s" % (part, name)
+    if st == "exc" or type(cmd).__name__ != name:
+        ctx.fail("table frame decodes to %r" % (cmd,), key=tag + "/decode")
+        return "decode?"
+    out = {}
+
+    async def main(loop):
+        d, pr, t = rigs.luba_driver(loop)
+
+        def gateway(data):
+            for _ in range(2 if (data[5] & 0x80) else 1):
+                loop.call_soon(pr.data_received, rigs.luba_event_tx(5, [0xFE, 0x00]))
+        t.on_write = gateway
+        await asyncio.wait_for(d.send(cmd), 5)
+        out["w"] = t.writes
+    st, r = call(vloop.run, main)
+    if st == "exc":
+        ctx.fail("send raised %r" % (r,), key=tag + "/raised:" + type(r).__name__)
+        return "raised"
+    w = out["w"]
+    ctx.prove(len(w) == (2 if devtype else 1), "%d packets written" % len(w), key=tag + "/count")
+    want = WF.luba_priority(kind, twice, answer)
+    if want is None:
+        ctx.note("unasserted-priority:%d:%s" % (part, name))
+        return "unasserted"
+    pkt = w[-1]
+    ctx.prove(len(pkt) == 11 and bool(E.eq(pkt[5] & 0x07, want)),
+              "priority %s, documented policy says %d for %s" % (pkt[5] & 7 if len(pkt) == 11 else "?", want, name),
+              key=tag + "/priority")
+    if devtype:
+        ctx.prove(len(w[0]) == 11 and bool(E.eq(w[0][5] & 0x07, 5)),
+                  "ENABLE DEVICE TYPE not sent with priority 5", key=tag + "/edt-priority")
+    return "prio%d" % want
 
 
 def h_sci_tx(ctx, bits, twice):
@@ -490,6 +548,10 @@ def cases(tier):
           Case("luba-width", h_serial_width, {"which": "luba"}, width=128),
           Case("sci-width", h_serial_width, {"which": "sci"}, width=128),
           Case("legacy-tridonic-sn", h_legacy_tridonic_sn, {})]
+    from spec import iec_tables as T
+    for i, row in enumerate(T.ROWS):
+        if row[2] in ("dapc", "std", "special") and (tier != "quick" or row[0] == 102):
+            cs.append(Case("luba-prio-%d-%s" % (row[0], row[1]), h_luba_prio, {"idx": i}))
     for twice in (False, True):
         cs.append(Case("hasseb-tx-%d" % twice, h_hasseb_tx, {"twice": twice}, install=rigs.install_tridonic_structs))
         cs.append(Case("legacy-tridonic-%d" % twice, h_legacy_tridonic, {"twice": twice}))
